@@ -207,11 +207,12 @@ CLAIMED = {
     ),
     "C06": dict(
         engine="llsym",
-        technique="symbolic execution of optimized LLVM IR of every Point::set_decode with all bytes symbolic; bit-vector queries (z3) on over-approximated cones for: exact status, failure => NEUTRAL, rejection of every byte-level forbidden string",
+        technique="symbolic execution of optimized LLVM IR of every Point::set_decode with all bytes symbolic; bit-vector queries (z3) on over-approximated cones for: exact status, failure => NEUTRAL, rejection of every byte-level forbidden string; Point::equals / Point::isneutral of all nine groups with all coordinate limbs symbolic against the specified comparison formulas (z3 bit-vectors, shared multiplications cut)",
         category="model_checking",
         text=("Strictness half of the property: for every group and each length in the bound, decoding rejects wrong "
               "lengths, field-level non-canonical coordinates (>= p), forbidden headers / sign / padding bits, and on "
-              "failure returns status 0 with the neutral; SEC1 curves accept the one-byte 00 and reject 32/64-byte strings."),
+              "failure returns status 0 with the neutral; SEC1 curves accept the one-byte 00 and reject 32/64-byte strings. "
+              "Equality and neutral tests of all nine groups return exactly the specified formula's status for every internal representation."),
         design_ref="DESIGN.md 3 C06, 8",
         note=("The algebraic half (encode(decode(b))=b, equality <=> equal encodings, coset independence, maps land on the "
               "curve) needs field semantics and is not posed. For coordinates that are products of cleared coordinates the "
